@@ -386,8 +386,8 @@ def _units(p: Program, side: str, mod: str) -> Dict[str, List[FuncInfo]]:
             continue
         if _private_class(f.cls):
             continue  # methods of a private holder class belong to the units that create it
-        if _is_folded_helper(p, f) or _is_referenced_private(m, f):
-            continue
+        if _is_folded_helper(p, f) or _is_referenced_private(m, f) or f.fq in getattr(p, "inlined_generators", ()):
+            continue  # (a private generator that was inlined at its `yield from` sites lives on in its users)
         out[f.qualname] = [f]
     for q, ms in out.items():
         root = ms[0]
